@@ -169,8 +169,15 @@ def run_cases(ctx, n, tag):
             m = {"naive": NaiveThresholdMatching(matching_threshold=thr),
                  "m2o": NaiveThresholdMatching(matching_threshold=thr, allow_many_to_one=True),
                  "merge": MaximizeMergeMatching(matching_threshold=thr)}[kind]
-            with quiet():
-                lm = m._match_instances(UnmatchedInstancePair(pred, ref))
+            try:
+                with quiet():
+                    lm = m._match_instances(UnmatchedInstancePair(pred, ref))
+            except Exception as e:
+                inp = {"shape": list(pred.shape), "dtype": str(pred.dtype), "pred": gen.arr_json(pred), "ref": gen.arr_json(ref), "matcher": kind, "thr": thr, "src": f"{tag}{i}"}
+                ctx.case(inp, True)
+                ctx.violation(f"C04 violated: matching a valid unmatched pair ({kind}, threshold {thr}, {pred.dtype}) raised {type(e).__name__}: {str(e)[:120]}", inp,
+                              key={"kind": "raises"})
+                continue
             order = [[int(k), int(v)] for k, v in lm.labelmap.items()]
         else:
             # random functional label map (many-to-one allowed)
